@@ -10,6 +10,7 @@
 #include <string>
 #include <unordered_map>
 #include <functional>
+#include <sys/mman.h>
 
 extern "C" int m_set_memhook(void *(*_malloc)(size_t), void *(*_calloc)(size_t, size_t), void (*_free)(void *));
 
@@ -27,6 +28,7 @@ struct State {
     long fail_at = -1;                       // allocation index that returns NULL (-1: never)
     void *last_alloc = nullptr;              // most recent pointer handed out
     size_t last_alloc_size = 0;
+    std::unordered_map<void *, size_t> huge;  // mmap-backed allocations
 };
 
 inline State &st() { static State s; return s; }
@@ -35,7 +37,12 @@ inline void *raw_alloc(size_t sz, bool zero) {
     State &s = st();
     if (s.fail_at >= 0 && (long)s.n_alloc == s.fail_at) { s.n_alloc++; return nullptr; }
     void *p;
-    if (s.misaligned) {
+    if (sz >= ((size_t)1 << 30)) {
+        // huge requests (sizes that do not fit 32 bits are part of C10's domain): address space only, pages are touched by nobody
+        p = mmap(nullptr, sz, PROT_READ | PROT_WRITE, MAP_PRIVATE | MAP_ANONYMOUS | MAP_NORESERVE, -1, 0);
+        if (p == MAP_FAILED) return nullptr;
+        s.huge[p] = sz;
+    } else if (s.misaligned) {
         // 16-aligned but never 32-aligned: the minimum malloc guarantees on this platform.
         void *base = nullptr;
         if (posix_memalign(&base, 32, sz + 48) != 0) return nullptr;
@@ -64,7 +71,9 @@ inline void t_free(void *p) {
     if (s.on_free) s.on_free(p);
     s.live.erase(it);
     s.n_free++;
-    if (s.misaligned) free((char *)p - 16); else free(p);
+    auto hg = s.huge.find(p);
+    if (hg != s.huge.end()) { munmap(p, hg->second); s.huge.erase(hg); }
+    else if (s.misaligned) free((char *)p - 16); else free(p);
 }
 
 inline void install() { m_set_memhook(t_malloc, t_calloc, t_free); }
